@@ -43,6 +43,7 @@ import DateutilVerif.Model.CacheNested
 import DateutilVerif.Proofs.CacheNestedStep
 import DateutilVerif.Proofs.CacheNestedInit
 import DateutilVerif.Proofs.CacheNestedProgress
+import DateutilVerif.Generated.RRBaseCache
 
 namespace C11
 open Cache Queries
@@ -330,6 +331,60 @@ example : (let ns := Nested.run nestedShared.1 nestedShared.2 (List.replicate 40
 example : (let ns := Nested.run nestedOwn.1 nestedOwn.2 (List.replicate 150 0)
            (Nested.finished ns (1, 0), ns.sets.map (fun S => S.st.sh.cache), Nested.deadlocked ns nestedOwn.2))
           = (true, [[0, 10, 20]], false) := by decide +kernel
+
+/-! ### the machine IS the translated source
+
+`Gen.iterCachedProgram` (Generated/RRBaseCache.lean) is `rrulebase.__iter__` followed by `rrulebase._iter_cached` as `harness/translate_rrbase.py` reads it
+from /repo's working tree on every run: one node per statement that is a pause point of the tracer — its program counter,
+what the statement does (a strict vocabulary; anything else is Untranslatable) and where control goes, from the nesting of
+the source (while / if / try-finally / try-except / for / break).  Its meaning is `CachePy.stepProg`. -/
+
+/-- **program_sim.** At EVERY program counter of `__iter__` / `_iter_cached` and on EVERY state, the statement of the translated program
+    does exactly what the machine `Cache.stepIter` does (same shared state, same locals, same next pc; blocked exactly when
+    the machine is).  Hence `inv_step`, `safety`, `no_deadlock`, `progress`, `finished_answer`, … above are theorems about
+    the statements as translated, not about a hand-aligned listing: a changed statement, order, batch size, handler or
+    branch target breaks THIS obligation (or the translation) on the next run. -/
+theorem program_sim (sh : Shared) (t : Tid) (it : Iter) (h : CachePy.bodyPC it.pc = true) :
+    CachePy.stepProg Gen.iterCachedProgram sh t it = stepIter sh t it := by
+  unfold CachePy.stepProg stepIter
+  cases hpc : it.pc <;> rw [hpc] at h <;> simp only [CachePy.bodyPC] at h <;> try (cases h)
+  all_goals simp only [CachePy.nodeAt, Gen.iterCachedProgram, List.find?, CachePy.stepNode, step138]
+  all_goals first | rfl | (split <;> first | rfl | (split <;> first | rfl | (split <;> rfl)))
+
+/-- the whole machine with the body of `_iter_cached` executed by the translated program is the machine of the theorems
+    (what the driver op `cache.trun` runs against the real generators) -/
+theorem translated_machine_eq : CachePy.stepIterT Gen.iterCachedProgram = stepIter := by
+  funext sh t it
+  unfold CachePy.stepIterT
+  split
+  · rename_i h; exact program_sim sh t it h
+  · rfl
+
+-- every program counter of the generator body has a node; the batch size is the source's
+example : (Gen.iterCachedProgram.map (·.pc)).length = 28 ∧ (CachePy.nodeAt Gen.iterCachedProgram .l137).map (·.op) = some (.forRange 10) := by decide
+-- the obligation distinguishes programs: without the read-ahead handler E escapes although the consumer's value is there
+example : CachePy.stepNode { pc := .l138, op := .appendNext false, next := .l137, alt := .l139, exc := .l144 }
+            { initShared [7] (some .ZeroDivisionError) with cache := [7], genPos := 1, lock := some 0 } 0 { q := .iterAll, pc := .l138, i := 0, j := 1 }
+          ≠ stepIter { initShared [7] (some .ZeroDivisionError) with cache := [7], genPos := 1, lock := some 0 } 0 { q := .iterAll, pc := .l138, i := 0, j := 1 } := by decide
+
+/-- **gen_restartable_eq_model.** `_restartable` as translated from the source is the generator the machine assumes on line 138
+    (`Cache.step138`): from a state in step with the cache (`inner = pos`, alive) one `__next__()` gives the next value of `src`
+    and advances both counters; at the end of `src` it gives StopIteration when the underlying generator ends normally, and when it
+    raises E it raises E and is AGAIN in step at the same position — so the next request raises E again (what `Shared.endErr`
+    means), instead of the dead generator's StopIteration (the old defect: see the last `example`). -/
+theorem gen_restartable_eq_model (src : List Int) (e : Option Py.PyErr) (pos : Nat) :
+    CachePy.runRestartNext Gen.restartableProgram src e { pos := pos, inner := pos } =
+      some (match src[pos]? with
+            | some x => (.value x, { pos := pos + 1, inner := pos + 1 })
+            | none => match e with
+              | none => (.stop, { pos := pos, inner := pos })
+              | some err => (.raise_ err, { pos := pos, inner := pos })) := by
+  cases h : src[pos]? <;> cases e <;> simp [CachePy.runRestartNext, Gen.restartableProgram, h]
+
+-- without the restart the generator is dead after E: its next answer is StopIteration
+example : (CachePy.runRestartNext { Gen.restartableProgram with restartsAtPos := false } [7] (some .ZeroDivisionError) { pos := 1, inner := 1 }).bind
+            (fun r => CachePy.runRestartNext { Gen.restartableProgram with restartsAtPos := false } [7] (some .ZeroDivisionError) r.2)
+          = some (.stop, { pos := 1, inner := 1, dead := true }) := by decide
 
 /-! ### the underlying generator raises: cached = uncached (D-C11-genraise repaired in /repo) -/
 
